@@ -32,7 +32,8 @@ func genC14(r *Rng, tier string) *World {
 	var root *Node
 	switch fam {
 	case "flat":
-		c.MaxDepth = 1
+		c.MaxDepth = 2 // slices of scalars live at depth 1
+		c.MaxFields = 2 + r.Intn(4)
 		root = genKind(r, &c, "struct", 0)
 		var fs []*Field
 		for _, f := range root.Fields {
@@ -97,6 +98,9 @@ func genC14(r *Rng, tier string) *World {
 					v.S = "x" + strings.TrimSpace(v.S)
 				}
 				l.L = append(l.L, v)
+				if r.P(0.25) {
+					l.L = append(l.L, v) // a repeated parameter with identical values is still a list
+				}
 			}
 			return l, true
 		default:
